@@ -258,6 +258,27 @@ def checkStep (e : Env) (pre : Sys) (op : Op) (res : Res) (post : Sys) : List (S
    let newShards := post.st.shards.filter (fun sh => (pre.st.getShard sh.id).isNone)
    if newOrders.any (fun o => o.id < pre.st.getOrderCount) || newShards.any (fun sh => sh.id < pre.st.shardCount)
    then [("C16", "clause=idReused cls=none")] else []) ++
+  -- C18: an export / import round trip reproduces the state of every storage module
+  (match op with
+   | .genesis =>
+     if res ≠ .ok then [("C18", "clause=roundTrip cls=export-rejected")] else
+     let a := pre.st
+     let b := post.st
+     let lost := (if a.faults ≠ b.faults ∨ a.faultIdx ≠ b.faultIdx then ["faults"] else []) ++
+                 (if a.fishing ≠ b.fishing then ["fishing"] else []) ++
+                 (if a.nodeRound ≠ b.nodeRound ∧ !(a.nodeRound = some 0 ∧ b.nodeRound = none) ∧ !(a.nodeRound = none) then ["nodeRound"] else [])
+     let other := (if a.orders ≠ b.orders then ["orders"] else []) ++ (if a.shards ≠ b.shards then ["shards"] else []) ++
+                  (if a.getOrderCount ≠ b.getOrderCount then ["orderCount"] else []) ++ (if a.shardCount ≠ b.shardCount then ["shardCount"] else []) ++
+                  (if a.metas ≠ b.metas then ["metas"] else []) ++ (if a.models ≠ b.models then ["models"] else []) ++
+                  (if a.expiredData ≠ b.expiredData then ["expiredData"] else []) ++ (if a.timeoutQ ≠ b.timeoutQ then ["timeoutQ"] else []) ++
+                  (if a.expiredShardQ ≠ b.expiredShardQ then ["expiredShardQ"] else []) ++ (if a.nodes ≠ b.nodes then ["nodes"] else []) ++
+                  (if a.pledges ≠ b.pledges then ["pledges"] else []) ++ (if a.debts ≠ b.debts then ["debts"] else []) ++
+                  (if a.pool ≠ b.pool then ["pool"] else []) ++ (if a.params ≠ b.params then ["params"] else []) ++
+                  (if a.workers ≠ b.workers then ["workers"] else []) ++ (if a.did ≠ b.did then ["did"] else []) ++
+                  (if a.bank ≠ b.bank then ["bank"] else [])
+     (if other ≠ [] then [("C18", s!"clause=roundTrip cls=none rec={other}")] else []) ++
+     (if lost ≠ [] then [("C18", s!"clause=roundTrip cls=no-genesis-field rec={lost}")] else [])
+   | _ => []) ++
   -- C19
   (if res = .ok then (faultViolations pre.st post.st op).map (fun v => ("C19", s!"clause=faultReport cls=none rec={v}")) else []) ++
   -- C17: a binding was created although the signed proof message does not name the DID
